@@ -20,7 +20,7 @@ def exec_corpus(tier, seed, n=None):
 def consts(funcs=None, maxi=12, fuel=600):
     sch = oalgen.OAL_SCHEMA
     c = {'Classes': sch['classes'], 'Attrs': {k: sch['attrs'][k] for k in sch['classes']}, 'Assocs': sch['assocs'],
-         'MaxI': maxi, 'Fuel': fuel, 'Funcs': funcs or {}}
+         'MaxI': maxi, 'Fuel': fuel}
     return c
 
 
